@@ -28,7 +28,7 @@
 From TV Require Import Base Model.Wiring Model.Ticker Model.Component Model.Sim Model.SimTime Model.Inline
   Proofs.WiringP Proofs.TickerP Proofs.FlattenP Proofs.SimP Proofs.LatestP Proofs.EqvP Proofs.ParDevP Proofs.InlineP Proofs.InlineLoopP
   Oracle.SimCheck Oracle.SimOracle Proofs.InlineScopeP Proofs.InlineLatestP Proofs.FrameP Proofs.EqvCongP Proofs.InlineAllP Proofs.InlineAllLatestP
-  Model.NSim Model.NNSim Proofs.NScheduleP Proofs.NDetP Proofs.NDetScopeP Proofs.SimNTP.
+  Model.NSim Model.NNSim Proofs.NScheduleP Proofs.NDetP Proofs.NDetScopeP Proofs.SimNTP Model.PyLib Gen.SourceFuns Proofs.GenDeviceInputsP.
 Open Scope Z_scope.
 
 Theorem C03_route_exact : forall (conns : list conn) src (ch : list (port * Z)) ic ip v,
@@ -263,3 +263,8 @@ Example C03_example :
   map fst (run_dc dc_init [([(1%positive, 5)], []); ([(2%positive, 7)], []); ([(1%positive, 6)], [])])
   = [[(1%positive, 5)]; [(1%positive, 5); (2%positive, 7)]; [(1%positive, 6); (2%positive, 7)]].
 Proof. vm_compute. reflexivity. Qed.
+
+(* the tie to the source: the cumulative inputs of the model ARE `{**self.device_inputs, **changes}` of
+   DeviceComponent.on_tick -- the left-hand side is regenerated from /repo by the function translator on every run *)
+Theorem C03_device_inputs_is_source : forall inputs chg : values, gen_device_inputs inputs chg = merge inputs chg.
+Proof. exact device_inputs_is_source. Qed.
